@@ -94,6 +94,11 @@ def run(ctx):
             c_ = copy.deepcopy(j_)
             c_['pathless_after'] = rng.choice(others)
             extra.append(c_)
+    # the same library with its basis re-ordered in place (and the matrix with it) after a first standard error was asked for
+    for j_ in [x for x in jobs if x['kind'] in ('unit', 'random', 'single-count')][3::5][:ctx.n(40, 200)]:
+        c_ = copy.deepcopy(j_)
+        c_['reordered_basis'] = True
+        extra.append(c_)
     jobs += extra
     if len([s for s in uqs if s in libs]) < 3:
         ctx.broken.append('fewer than three shipped libraries carry uncertainty data')
